@@ -300,10 +300,10 @@ def run_property(pid, tier):
 
 
 SUITES_FOR = {
-    "C01": ["s_sessions", "s_params_mix"], "C02": ["s_sessions"], "C03": ["s_sessions", "s_derivations", "s_params_mix"],
+    "C01": ["s_sessions", "s_params_mix"], "C02": ["s_sessions"], "C03": ["s_derivations", "s_params_mix", "s_sessions"],
     "C04": ["s_sessions", "s_entropy"], "C05": ["s_elements", "s_sessions"], "C06": ["s_sessions"], "C07": ["s_sessions"],
     "C08": ["s_sessions", "s_params_mix"], "C09": ["s_params_mix"], "C10": ["s_params_mix", "s_sessions"], "C11": ["s_util", "s_entropy"],
-    "C12": ["s_elements"], "C13": ["s_elements"], "C14": ["s_derivations"], "C15": ["s_util", "s_elements"],
+    "C12": ["s_elements"], "C13": ["s_elements"], "C14": ["s_derivations", "s_ae_long_runs"], "C15": ["s_util", "s_elements"],
     "C16": ["s_params_mix", "s_entropy"], "C17": [], "C18": ["s_elements"],
 }
 
